@@ -69,11 +69,6 @@ PENDING_FINDINGS = {
     'compiler:abort:state_switch-assert:union-in-union':
         'a union member that is itself a union is written as <union> directly inside <union>; start_union calls '
         'state_switch(STATE_UNION) while in STATE_UNION and the compiler aborts on g_assert (ctx->state != newstate)',
-    'compiler:fatal:callback-in-union-field':
-        'a function-pointer member of a union is written as <field><callback/></field>; start_function accepts an '
-        'embedded callback only in STATE_CLASS_FIELD/STATE_STRUCT_FIELD, so in STATE_UNION_FIELD the compiler warns '
-        '"element callback from state 27 is unknown" and then dies with "Caught NULL node, parent=<field>" (or writes a '
-        'typelib on which the repository API aborts)',
     'present:field:introspectable=0:as-gpointer-placeholder':
         'a field with introspectable="0" is kept in the typelib as a readable gpointer field (deliberate in '
         'start_field, but the property says non-introspectable elements are absent)',
@@ -1281,7 +1276,9 @@ def cmp_fields(d, path, e, a, owner):
             except ValueError:
                 pass
             cbk = kids(c, 'callback')
-            if cbk:
+            # only record and class fields can embed a callback blob (FieldBlob.has_embedded_type); a function pointer
+            # member of a union is described as an untyped pointer — the type of a field is not one of its flags
+            if cbk and owner in ('record', 'class'):
                 ty = f.get('type', {})
                 if ty.get('iface_kind') != 'callback':
                     d.add('kind:field-callback', '%s.%s: GIR has an embedded callback, typelib type is %r' % (path, name, ty))
@@ -1789,7 +1786,7 @@ def writer_only_shapes(root):
     out = []
     for i in root.iter(qn('interface')):
         for c in i:
-            if local(c.tag) in ('record', 'union', 'field'):
+            if local(c.tag) in ('record', 'union'):
                 out.append('<interface name=%r> has a <%s> child' % (i.get('name'), local(c.tag)))
     for ip in root.iter(qn('instance-parameter')):
         if ip.get('transfer-ownership') not in ('none', 'full'):
@@ -2234,7 +2231,9 @@ def run(ctx):
         'the vocabulary contract is proved on number-coded grouped tables; that they are the coding of the string tables is '
         'evaluated by the compiled driver on every run (tables_coded)',
         'flags compared are those the repository API exposes; c:type, doc, version, stability and other GIR-only data are not in a typelib',
-        'hypothesis of the contract theorems: no scanner output has fields/records/unions inside <interface>, nor an '
+        'the type of a field / parameter / return value is not compared (C06 does); in particular a function pointer member of a '
+        'union is a gpointer field in the typelib (only record and class fields can embed a callback)',
+        'hypothesis of the contract theorems: no scanner output has records/unions inside <interface>, nor an '
         '<instance-parameter> with a transfer-ownership other than none/full (checked on every GIR)',
         'glib:signal when="must-collect" (written by gdump.c for a signal that runs in none of the three phases): SignalBlob has no '
         'bit for G_SIGNAL_MUST_COLLECT, so the oracle expects none of run_first / run_last / run_cleanup to be set (at HEAD the '
